@@ -2,6 +2,7 @@ import FpVerif.Properties.C20
 import FpVerif.Properties.C20_Gen
 import FpVerif.Properties.C20_PrioExact
 import FpVerif.Properties.C20_PrioWin
+import FpVerif.Properties.C20_RandFifo
 import FpVerif.Properties.C20_Random
 import FpVerif.Properties.C20_Trace
 #print axioms Fp.C20.consume_spec
@@ -49,6 +50,9 @@ import FpVerif.Properties.C20_Trace
 #print axioms Fp.C20.prio_pop_fifo_within_windows
 #print axioms Fp.C20.prio_pop_none_keeps
 #print axioms Fp.C20.control_first_prio
+#print axioms Fp.C20.find_setQ
+#print axioms Fp.C20.queueOf_setQueue_self
+#print axioms Fp.C20.push_fifo_random
 #print axioms Fp.C20.queueOf_none_notin
 #print axioms Fp.C20.queueOf_of_mem
 #print axioms Fp.C20.lenSum_dropEmpty
